@@ -40,7 +40,7 @@ func (c *Ctx) runRepeated(tag, text string, flags []string, k int) (map[string]i
 
 func checkC11(c *Ctx) {
 	c.Level = "exploration"
-	c.Set("rule", "Pipeline.tla (TLC-checked) and the table-producing operators of LR1.tla/Regex.tla are functions: the specification admits exactly one outcome per (file, flags); the real gocc is run k times per (grammar, flag set) in fresh processes (fresh hash seeds) with GOMAXPROCS in {1,2,3,16}, in identically named directories; exit status, conflict count and every generated .go file must be byte-identical across runs. Grammars are biased towards what could expose map iteration order (many look-aheads per item, many conflicts per row, many token ids and string literals). Differential over runs: exploration, not a proof about Go's runtime. distinct_nontrivial counts (grammar, flag set) pairs with >= 2 runs compared")
+	c.Set("rule", "Pipeline.tla (TLC-checked) and the table-producing operators of LR1.tla/Regex.tla are functions: the specification admits exactly one outcome per (file, flags); the real gocc is run k times per (grammar, flag set) in fresh processes (fresh hash seeds) with GOMAXPROCS in {1,2,3,16}, in identically named directories; exit status, conflict count and every generated .go file must be byte-identical across runs. Grammars are biased towards what could expose map iteration order (many look-aheads per item, many conflicts per row, many token ids and string literals, several ignored tokens, one family with several hundred states and conflicting rows). Differential over runs: exploration, not a proof about Go's runtime. distinct_nontrivial counts (grammar, flag set) pairs with >= 2 runs compared")
 	tab := c.pipelineTable() // includes TLC's check that Next is deterministic
 	_ = tab
 	rng := rand.New(rand.NewSource(c.Seed))
@@ -57,10 +57,14 @@ func checkC11(c *Ctx) {
 		g := genSynGrammar(rng, o)
 		items = append(items, item{g.render(), flagSets[i%len(flagSets)]})
 	}
-	for i := 0; i < n/2; i++ {
-		lg := genLexGrammar(rng, lexGenOpts{MaxToks: 6, MaxIgn: 2, MaxDefs: 3, MaxLits: 3, Depth: 3})
+	for i := 0; i < n; i++ {
+		// several ignored tokens, several definitions: whatever is kept in a map has an order to lose
+		lg := genLexGrammar(rng, lexGenOpts{MaxToks: 6, MaxIgn: 4, MaxDefs: 3, MaxLits: 3, Depth: 3})
 		items = append(items, item{lg.render(), flagSets[i%2]})
 	}
+	// tables with more than 256 states and many conflicting rows (work that might be split over CPUs)
+	big := pairFamily(c.pick(130, 300))
+	items = append(items, item{big.render(), []string{"-a"}}, item{big.render(), []string{"-a", "-zip"}}, item{big.render(), nil})
 	for i, it := range items {
 		outs, descr := c.runRepeated(fmt.Sprintf("c11_%03d", i), it.text, it.flags, k)
 		c.Add("evaluations", int64(k))
